@@ -15,7 +15,7 @@ What was renamed / unfolded is recorded in `program.normalised` and shown in the
 """
 import ast
 
-from .model import FuncInfo, dotted
+from .model import FuncInfo, dotted, norm
 
 
 def _self_attr(n):
@@ -1040,6 +1040,157 @@ def pop_last_idiom(program, log):
                        f'iteration read as {xs}[-1] / {xs}[:-1]')
 
 
+def context_managers_to_try(program, log):
+    """`with _CM(a, ..): BODY` for a private context-manager class of the
+    package whose __init__ only files its arguments, whose __enter__ is
+    straight-line and returns nothing, and whose __exit__ has the shape
+
+        if exc_type is not None and issubclass(exc_type, X): STMTS; return True
+        return False
+
+    reads   ENTER; try: BODY; except X: STMTS   (self.<field> replaced by the
+    argument filed under it).  Anything else is left alone."""
+    import copy as _copy
+
+    def simple_init(c):
+        ini = c.methods.get('__init__')
+        if ini is None:
+            return None
+        ps = ini.params()[1:]
+        fields = {}
+        for s in strip(ini.node.body):
+            if isinstance(s, ast.AnnAssign) and s.value is not None:
+                tg, v = s.target, s.value
+            elif isinstance(s, ast.Assign) and len(s.targets) == 1:
+                tg, v = s.targets[0], s.value
+            else:
+                return None
+            if not (isinstance(tg, ast.Attribute) and isinstance(
+                    tg.value, ast.Name) and tg.value.id == 'self'
+                    and isinstance(v, ast.Name) and v.id in ps):
+                return None
+            fields[tg.attr] = ps.index(v.id)
+        return ps, fields
+
+    def strip(body):
+        return [s for s in body if not (isinstance(s, ast.Expr) and isinstance(
+            s.value, ast.Constant) and isinstance(s.value.value, str))
+            and not isinstance(s, ast.Pass)]
+
+    def subst(stmts, fields, args):
+        class R(ast.NodeTransformer):
+            ok = True
+
+            def visit_Attribute(self, n):
+                if isinstance(n.value, ast.Name) and n.value.id == 'self':
+                    if n.attr in fields and isinstance(n.ctx, ast.Load):
+                        return ast.copy_location(
+                            _copy.deepcopy(args[fields[n.attr]]), n)
+                    R.ok = False
+                    return n
+                return self.generic_visit(n)
+
+            def visit_Name(self, n):
+                if n.id == 'self':
+                    R.ok = False
+                return n
+        R.ok = True
+        out = [R().visit(_copy.deepcopy(s)) for s in stmts]
+        return out if R.ok else None
+
+    def rewrite(body, f):
+        for i, st in enumerate(list(body)):
+            for fld in ('body', 'orelse', 'finalbody'):
+                sub_ = getattr(st, fld, None)
+                if isinstance(sub_, list) and sub_ and isinstance(
+                        sub_[0], ast.stmt):
+                    rewrite(sub_, f)
+            for h in getattr(st, 'handlers', []) or []:
+                rewrite(h.body, f)
+            if not (isinstance(st, ast.With) and len(st.items) == 1
+                    and st.items[0].optional_vars is None
+                    and isinstance(st.items[0].context_expr, ast.Call)
+                    and not st.items[0].context_expr.keywords):
+                continue
+            call = st.items[0].context_expr
+            nm = dotted(call.func) or ''
+            c = program.lookup_class(f.module, nm)
+            if c is None or not nm.split('.')[-1].startswith('_') or \
+                    c.node.bases or not {'__enter__', '__exit__'} <= set(
+                        c.methods):
+                continue
+            si = simple_init(c)
+            if si is None or len(call.args) != len(si[0]) or not all(
+                    isinstance(a, ast.Name) for a in call.args):
+                continue
+            ps, fields = si
+            en = strip(c.methods['__enter__'].node.body)
+            if any(isinstance(x, (ast.Return, ast.If, ast.For, ast.While,
+                                  ast.Try, ast.With, ast.Raise, ast.Yield))
+                   for s in en for x in ast.walk(s)):
+                continue
+            exf = c.methods['__exit__']
+            xp = exf.params()
+            xb = strip(exf.node.body)
+            if len(xp) != 4 or not (1 <= len(xb) <= 2 and isinstance(
+                    xb[0], ast.If) and not xb[0].orelse):
+                continue
+            if len(xb) == 2 and not (isinstance(xb[1], ast.Return) and (
+                    xb[1].value is None or (isinstance(
+                        xb[1].value, ast.Constant)
+                        and not xb[1].value.value))):
+                continue
+            t = xb[0].test
+            et, evn = xp[1], xp[2]
+            conj = t.values if isinstance(t, ast.BoolOp) and isinstance(
+                t.op, ast.And) else [t]
+            cls_node = None
+            okshape = True
+            for cj in conj:
+                tx = norm(cj)
+                if tx in (f'{et} is not None', f'{evn} is not None'):
+                    continue
+                if isinstance(cj, ast.Call) and len(cj.args) == 2 and (
+                        (dotted(cj.func) == 'issubclass'
+                         and norm(cj.args[0]) == et)
+                        or (dotted(cj.func) == 'isinstance'
+                            and norm(cj.args[0]) == evn)) \
+                        and cls_node is None:
+                    cls_node = cj.args[1]
+                    continue
+                okshape = False
+            hb = xb[0].body
+            if not okshape or cls_node is None or not hb or not (
+                    isinstance(hb[-1], ast.Return) and isinstance(
+                        hb[-1].value, ast.Constant)
+                    and hb[-1].value.value is True):
+                continue
+            hb = hb[:-1]
+            if any(isinstance(x, (ast.Return, ast.Name)) and (
+                    isinstance(x, ast.Return) or x.id in xp[1:])
+                    for s in hb for x in ast.walk(s)):
+                continue
+            en2 = subst(en, fields, call.args)
+            hb2 = subst(hb, fields, call.args)
+            if en2 is None or hb2 is None:
+                continue
+            tr = ast.Try(body=st.body, handlers=[ast.ExceptHandler(
+                type=_copy.deepcopy(cls_node), name=None,
+                body=hb2 or [ast.Pass()])], orelse=[], finalbody=[])
+            new = en2 + [tr]
+            for n_ in new:
+                ast.copy_location(n_, st)
+                ast.fix_missing_locations(n_)
+            j = body.index(st)
+            body[j:j + 1] = new
+            log.append(f'{f.where}: `with {norm(call)}` read as its '
+                       f'__enter__ followed by try/except {norm(cls_node)} '
+                       '(its __exit__)')
+
+    for f in program.all_functions():
+        rewrite(f.node.body, f)
+
+
 def rpartition_keys(program, log):
     """`p, s, last = k.rpartition(c)` followed by a walk over `p.split(c)`
     that is guarded by `s` (the separator found) reads `ks = k.split(c);
@@ -1335,7 +1486,8 @@ def run(program):
     program.records = {}
     program.cow = set()
     for step in (explicit_properties, walrus_out, inline_simple_decorators,
-                 inline_aliases, rpartition_keys, slices_of_islice,
+                 inline_aliases, context_managers_to_try, rpartition_keys,
+                 slices_of_islice,
                  pop_last_idiom,
                  bool_dispatch_tables, yield_from_genexp, copy_on_write_sets,
                  flattened_chainmaps,
